@@ -330,18 +330,28 @@ func buildExternals() map[string]extFn {
 	m[zz+"IntOfDigits"] = func(ex *Exec, fr *frame, a []value) value {
 		tc := ex.tc
 		bs := a[0].([]value)
-		acc := tc.IntConst(big.NewInt(0))
-		p := big.NewInt(1)
-		for i := len(bs) - 1; i >= 0; i-- {
-			var d *Term
-			switch b := bs[i].(type) {
+		// concrete digits are folded with Horner into one constant; only
+		// symbolic digits become terms (10^pos * bv2nat(d - '0'))
+		cst := new(big.Int)
+		ten := big.NewInt(10)
+		type symd struct {
+			pos int
+			t   *Term
+		}
+		var syms []symd
+		for i, b := range bs {
+			cst.Mul(cst, ten)
+			switch b := b.(type) {
 			case I:
-				d = tc.IntConst(big.NewInt(int64(b) - '0'))
+				cst.Add(cst, big.NewInt(int64(b)-'0'))
 			case *Term:
-				d = tc.BV2Nat(tc.BVBin(OpBVSub, b, tc.BV('0', 8)))
+				syms = append(syms, symd{len(bs) - 1 - i, tc.BV2Nat(tc.BVBin(OpBVSub, b, tc.BV('0', 8)))})
 			}
-			acc = tc.IntBin(OpIntAdd, acc, tc.IntBin(OpIntMul, tc.IntConst(p), d))
-			p = new(big.Int).Mul(p, big.NewInt(10))
+		}
+		acc := tc.IntConst(cst)
+		for _, s := range syms {
+			p := new(big.Int).Exp(ten, big.NewInt(int64(s.pos)), nil)
+			acc = tc.IntBin(OpIntAdd, acc, tc.IntBin(OpIntMul, tc.IntConst(p), s.t))
 		}
 		return mkIntV(acc)
 	}
